@@ -89,6 +89,12 @@ def run(chk):
                 wits.append("arg%d<-%s" % (i, s))
                 if not all(x[0] == "upvar" and x[1] == i for x in at):
                     okargs = False
+                # ... and it is that parameter as it was received: not updated in place (`request.allow_list.as_mut()…retain`),
+                # not rebuilt with a member replaced — the value term is the parameter itself
+                vt = flow.simplify_term(flow.Terms(p, co).operand(a, bb, "t"))
+                if vt != ("upvar", i):
+                    okargs = False
+                    wits.append("arg%d is not the parameter unchanged: %s" % (i, flow.term_str(vt)[:120]))
             chk.ob("R3 transparent", "R3|Ctap2Api::%s|args" % m, okargs, where(co, bb), "; ".join(wits))
             ret = og.of_place(co, 0)
             rs = flow.atoms_summary(ret)
